@@ -97,7 +97,7 @@ fn main() {
             sharded(n, move |s| vmon::c02::run(seed, s, seqs, true))
         }
         "c06-openapi" => {
-            let (tables, perms, cross) = if miri { (2, 2, 0) } else if quick { (60, 3, 8) } else { (1500, 4, 60) };
+            let (tables, perms, cross) = if miri { (4, 2, 0) } else if quick { (60, 3, 8) } else { (1500, 4, 60) };
             sharded(n, move |s| vmon::c06::run(seed, s, tables, perms, cross))
         }
         "c06-hash" => {
